@@ -348,7 +348,7 @@ macro "origin_brute" h:ident hph:ident : tactic => `(tactic|
     simp_all [Sys.setInst, upd, Origin] <;>
     (try (subst $hph:ident; simp_all [leavesOf, List.length_pos_iff]))))
 
-set_option maxHeartbeats 4000000
+
 theorem origin_launchCreate (s s' : Sys) {i : _}
     (h : step s (.launchCreate i) = some s')
     (rd' : Round) (hph' : (s'.insts i).phase = .round rd') : Origin s (.launchCreate i) i rd' := by
@@ -693,3 +693,13 @@ theorem Inv4.lockRec {s : Sys} (h4 : Inv4 s) (h1 : Inv s) (h3 : Inv3 s) :
   · exact Or.inr hst
 
 end Seq
+
+namespace Seq
+
+/-- only tampering belongs to no instance -/
+theorem inst_none_tamper (e : Ev) (h : e.inst = none) : ∃ k o, e = .tamper k o := by
+  cases e <;> simp [Ev.inst] at h
+  exact ⟨_, _, rfl⟩
+
+end Seq
+
